@@ -467,6 +467,26 @@ impl<P: ConnectionProvider> RecursorDnsHandle<P> {
                         }
                     }
 
+                    // The same goes for the name servers of a referral, and their glue records. A
+                    // referral remains one even if no name server is left, it is not a NODATA answer.
+                    if let Some(ns_recs) = no_records.ns.take() {
+                        let ns_recs = ns_recs
+                            .iter()
+                            .filter(|ns| answer_filter(&ns.ns))
+                            .cloned()
+                            .map(|mut ns| {
+                                ns.glue = ns
+                                    .glue
+                                    .iter()
+                                    .filter(|glue| answer_filter(glue))
+                                    .cloned()
+                                    .collect();
+                                ns
+                            })
+                            .collect::<Vec<_>>();
+                        no_records.ns = Some(Arc::from(ns_recs));
+                    }
+
                     let soa = no_records.soa.as_ref();
                     if soa.is_some_and(|soa| !is_subzone(&zone, &soa.name)) {
                         debug!(?soa, %zone, "dropping out of bailiwick record");
